@@ -23,7 +23,8 @@ Open Scope N_scope.
 (* bhv: header class  0 good, 1 bad signature, 2 bad consensus field, 3 future
    bbv: body class    0 good, 1 body/tx-root mismatch (the body does not execute either),
                       5 tx root only: the header commits to a wrong transaction root, body and all
-                        other roots are consistent (only ValidateBody's tx-root test sees it),
+                        other roots are consistent (only the tx-root test of ValidateBody / of
+                        verifyAllSideChainBlocks sees it),
                       other: state / receipt root / bloom / gas-used mismatch (ValidateState fails)
    broot: the state root the header claims; bid: the block hash (0 = no hash) *)
 Record block := mkB { bid : N; bpar : N; bnum : N; broot : N; btxs : list N; bhv : N; bbv : N }.
@@ -302,8 +303,9 @@ Fixpoint vasc_loop (s : st) (first : N) (prev : block) (chain : list block) : st
     if (lb <? first) && (match get_header_by_number t d lb with None => true | Some _ => false end) then (s, EPanic)
     else if negb ((bnum prev + 1 =? bnum b) && (bid prev =? bpar b)) then (s, EUnknownAnc)
     else if (bhv b =? 1) || (bhv b =? 2) then (s, EBadHeader)       (* verifySignature, consensus field *)
-    (* Process + ValidateState only: the transaction root is not compared here *)
-    else if negb ((bbv b =? 0) || (bbv b =? 5)) then (s, EBadState)
+    (* the state-independent part of ValidateBody (transaction root), then Process + ValidateState *)
+    else if (bbv b =? 1) || (bbv b =? 5) then (s, EBadBody)
+    else if negb (bbv b =? 0) then (s, EBadState)
     else vasc_loop (if has_block d (bid b) then s else write_block b s) first b r
   end.
 
